@@ -116,29 +116,40 @@ static inline uint64_t spec_sx_horner(const char *s, size_t from, size_t to, uin
 /* ---- the grammar as ghost tables (proof side: contracts/sx.h) -------------
  * "Which prefix of s[i..n) is a complete expression" is a recursive function
  * of the text.  A contract cannot call it, so -- as for the checksums -- it is
- * pinned by ghost tables with one entry per input position, arbitrary arrays
+ * pinned by ghost tables with one entry per input position: arbitrary arrays
  * constrained only by LOCAL defining equations (bounded quantifier over the
- * constant SX_QMAX + 1: tier A-len, input length <= SX_QMAX; every equation
+ * constant SX_QMAX: tier A-len, input length <= SX_QMAX; every equation
  * refers to larger positions only, so the tables are unique):
  *   W[k]  first position >= k that is not whitespace, or n
  *   S[k], D[k], X[k]  end of the run of symbol constituents / decimal digits
  *         / hexadecimal digits starting at k
+ *   C[k]  token class at k (spec_sx_looking_at)
+ *   T[k]  end of the atom (symbol / integer) that starts at k when one does
+ *         and a delimiter or the end of the input follows it, else SX_FAIL(n)
  *   E[k]  position just past the expression that starts (after whitespace)
  *         at k, or SX_FAIL(n) when s[k..n) does not begin with one
  *   L[k]  position just past the ')' that closes a list whose elements start
  *         at k, or SX_FAIL(n)
- * Each equation also carries the range of its entry (k <= R[k] <= n;
- * k < E[k] <= n or FAIL), which follows from the recurrence by induction;
- * target `tables_ranges` proves that from the bare recurrences.  The native
- * replay computes the tables (harness/sx.c); target `tables_vs_reference`
- * compares E with the recursive reference reader on all short strings.
+ * Each equation also carries the range of its entry (k <= W[k] <= n; k < E[k]
+ * <= n or FAIL ...), which follows from the recurrence by induction; target
+ * `tables_ranges` proves that from the bare recurrences.  The native replay
+ * computes the tables (harness/sx.c); target `tables_vs_reference` compares
+ * E with the recursive reference reader on all short strings.
+ *
+ * The equations are stated ONCE per function, in `requires`, under the ghost
+ * flag g_sx_tabs (arbitrary): 0 = nothing is known about the tables, >= 1 =
+ * the run tables W S D X satisfy their equations, 2 = C T E L too.  Every
+ * clause that speaks about the tables is conditional on the flag, so the
+ * contracts hold for all tables and all flags, and a caller that replaces a
+ * callee re-establishes the (identical) precondition.
  */
 #ifndef SX_QMAX
 #define SX_QMAX 32
 #endif
 #define SX_FAIL(n) ((n) + 1)
 #define SX_TAB_LEN (SX_QMAX + 2)
-extern const size_t *g_sxW, *g_sxS, *g_sxD, *g_sxX, *g_sxE, *g_sxL;
+extern const size_t *g_sxW, *g_sxS, *g_sxD, *g_sxX, *g_sxC, *g_sxT, *g_sxE, *g_sxL;
+extern int g_sx_tabs;
 
 /* s[e] or a delimiter when e is the end of the input */
 #define SX_AT(s, n, e) ((e) < (n) ? (s)[e] : ' ')
@@ -147,40 +158,52 @@ extern const size_t *g_sxW, *g_sxS, *g_sxD, *g_sxX, *g_sxE, *g_sxL;
   (((n) - (j) > 2 && (s)[j] == '#' && SX_AT(s, n, (j) + 1) == 'x' && SPEC_SX_ISXDIGIT(SX_AT(s, n, (j) + 2))) ? SPEC_SX_AT_INT_HEX \
    : (s)[j] == '(' ? SPEC_SX_AT_OPEN : (s)[j] == ')' ? SPEC_SX_AT_CLOSE \
    : SPEC_SX_ISDIGIT((s)[j]) ? SPEC_SX_AT_INT_DEC : SPEC_SX_ISSYMINIT((s)[j]) ? SPEC_SX_AT_SYMBOL : SPEC_SX_AT_UNKNOWN)
-/* end of the atom that starts at j (class c), and whether a delimiter or the
- * end of the input follows it */
+/* raw end of the atom of class c that starts at j */
 #define SX_ATOM_END(c, j) ((c) == SPEC_SX_AT_SYMBOL ? g_sxS[j] : (c) == SPEC_SX_AT_INT_DEC ? g_sxD[j] : g_sxX[(j) + 2])
 #define SX_IS_ATOM(c) ((c) == SPEC_SX_AT_SYMBOL || (c) == SPEC_SX_AT_INT_DEC || (c) == SPEC_SX_AT_INT_HEX)
-#define SX_ATOM_OK(s, n, c, j) (SX_ATOM_END(c, j) >= (n) || SPEC_SX_ISDELIM(SX_AT(s, n, SX_ATOM_END(c, j))))
+#define SX_ATOM_T(s, n, c, j) \
+  ((SX_IS_ATOM(c) && (SX_ATOM_END(c, j) >= (n) || SPEC_SX_ISDELIM(SX_AT(s, n, SX_ATOM_END(c, j))))) \
+   ? SX_ATOM_END(c, j) : SX_FAIL(n))
 /* E[k] and L[k] in terms of the other entries; j is W[k] */
-#define SX_EXPR_END(s, n, j) \
-  ((j) >= (n) ? SX_FAIL(n) \
-   : SX_CLS(s, n, j) == SPEC_SX_AT_OPEN ? g_sxL[(j) + 1] \
-   : (SX_IS_ATOM(SX_CLS(s, n, j)) && SX_ATOM_OK(s, n, SX_CLS(s, n, j), j)) ? SX_ATOM_END(SX_CLS(s, n, j), j) \
-   : SX_FAIL(n))
-#define SX_TAIL_END(s, n, k, j) \
-  ((j) >= (n) ? SX_FAIL(n) : (s)[j] == ')' ? (j) + 1 \
+#define SX_EXPR_END(n, j) \
+  ((j) >= (n) ? SX_FAIL(n) : g_sxC[j] == SPEC_SX_AT_OPEN ? g_sxL[(j) + 1] : g_sxT[j])
+#define SX_TAIL_END(n, k, j) \
+  ((j) >= (n) ? SX_FAIL(n) : g_sxC[j] == SPEC_SX_AT_CLOSE ? (j) + 1 \
    : g_sxE[k] > (n) ? SX_FAIL(n) : g_sxL[g_sxE[k] <= (n) ? g_sxE[k] : 0])
 
-#define SX_RUN_OK(R, ISC, s, n) \
-  ((R)[n] == (n) && __CPROVER_forall { size_t k_; (k_ < SX_QMAX) ==> ((k_ < (n)) ==> \
-      ((R)[k_] == (ISC((s)[k_]) ? (R)[k_ + 1] : k_) && (R)[k_] <= (n) && (R)[k_] >= k_)) })
 #define SX_TABS_MEM_OK \
   (__CPROVER_r_ok(g_sxW, SX_TAB_LEN * sizeof(size_t)) && __CPROVER_r_ok(g_sxS, SX_TAB_LEN * sizeof(size_t)) \
    && __CPROVER_r_ok(g_sxD, SX_TAB_LEN * sizeof(size_t)) && __CPROVER_r_ok(g_sxX, SX_TAB_LEN * sizeof(size_t)) \
+   && __CPROVER_r_ok(g_sxC, SX_TAB_LEN * sizeof(size_t)) && __CPROVER_r_ok(g_sxT, SX_TAB_LEN * sizeof(size_t)) \
    && __CPROVER_r_ok(g_sxE, SX_TAB_LEN * sizeof(size_t)) && __CPROVER_r_ok(g_sxL, SX_TAB_LEN * sizeof(size_t)))
-/* the scanners need the run tables only */
-#define SX_RUNS_OK(s, n) \
-  ((n) <= SX_QMAX && SX_TABS_MEM_OK \
-   && SX_RUN_OK(g_sxW, SPEC_SX_ISSPACE, s, n) && SX_RUN_OK(g_sxS, SPEC_SX_ISSYMCH, s, n) \
-   && SX_RUN_OK(g_sxD, SPEC_SX_ISDIGIT, s, n) && SX_RUN_OK(g_sxX, SPEC_SX_ISXDIGIT, s, n) \
-   && g_sxX[(n) + 1] == (n) + 1)
-#define SX_GRAMMAR_OK(s, n) \
-  (SX_RUNS_OK(s, n) \
+#define SX_NC(n) ((n) <= SX_QMAX ? (n) : 0)
+#define SX_RUN_EQ(R, ISC, s, n, k_) \
+  ((n) <= SX_QMAX && (R)[SX_NC(n)] == (n) \
+   && __CPROVER_forall { size_t k_; (k_ < SX_QMAX) ==> ((k_ < (n)) ==> \
+      ((R)[k_] == (ISC((s)[k_]) ? (R)[k_ + 1] : k_) && (R)[k_] <= (n) && (R)[k_] >= k_)) })
+#define SX_CLS_EQ(s, n, k_) \
+  ((n) <= SX_QMAX && __CPROVER_forall { size_t k_; (k_ < SX_QMAX) ==> ((k_ < (n)) ==> \
+      (g_sxC[k_] == SX_CLS(s, n, k_) && g_sxT[k_] == SX_ATOM_T(s, n, g_sxC[k_], k_) \
+       && (g_sxT[k_] == SX_FAIL(n) || (k_ < g_sxT[k_] && g_sxT[k_] <= (n))))) })
+#define SX_EL_EQ(s, n, k_) \
+  ((n) <= SX_QMAX && g_sxL[SX_NC(n) + 1] == SX_FAIL(n) \
    && __CPROVER_forall { size_t k_; (k_ < SX_QMAX + 1) ==> ((k_ <= (n)) ==> \
-        (g_sxE[k_] == SX_EXPR_END(s, n, g_sxW[k_]) && g_sxL[k_] == SX_TAIL_END(s, n, k_, g_sxW[k_]) \
+        (g_sxE[k_] == SX_EXPR_END(n, g_sxW[k_]) && g_sxL[k_] == SX_TAIL_END(n, k_, g_sxW[k_]) \
          && (g_sxE[k_] == SX_FAIL(n) || (k_ < g_sxE[k_] && g_sxE[k_] <= (n))) \
-         && (g_sxL[k_] == SX_FAIL(n) || (k_ < g_sxL[k_] && g_sxL[k_] <= (n))))) } \
-   && g_sxL[(n) + 1] == SX_FAIL(n))
+         && (g_sxL[k_] == SX_FAIL(n) || (k_ < g_sxL[k_] && g_sxL[k_] <= (n))))) })
+/* `requires` clauses: the scanners and the tokenizer need the run tables,
+ * the expression level all of them */
+#define SX_RUNS_REQUIRES(s, n) \
+  __CPROVER_requires(SX_TABS_MEM_OK) \
+  __CPROVER_requires(IMPLIES(g_sx_tabs >= 1, SX_RUN_EQ(g_sxW, SPEC_SX_ISSPACE, s, n, kw_))) \
+  __CPROVER_requires(IMPLIES(g_sx_tabs >= 1, SX_RUN_EQ(g_sxS, SPEC_SX_ISSYMCH, s, n, ks_))) \
+  __CPROVER_requires(IMPLIES(g_sx_tabs >= 1, SX_RUN_EQ(g_sxD, SPEC_SX_ISDIGIT, s, n, kd_))) \
+  __CPROVER_requires(IMPLIES(g_sx_tabs >= 1, SX_RUN_EQ(g_sxX, SPEC_SX_ISXDIGIT, s, n, kx_) && g_sxX[SX_NC(n) + 1] == (n) + 1))
+#define SX_TABS_REQUIRES(s, n) \
+  SX_RUNS_REQUIRES(s, n) \
+  __CPROVER_requires(IMPLIES(g_sx_tabs >= 2, SX_CLS_EQ(s, n, kc_))) \
+  __CPROVER_requires(IMPLIES(g_sx_tabs >= 2, SX_EL_EQ(s, n, ke_)))
+#define SX_RUNS_OK(s, n) (g_sx_tabs >= 1)
+#define SX_GRAMMAR_OK(s, n) (g_sx_tabs >= 2)
 
 #endif
